@@ -238,6 +238,8 @@ def accept_mods(fmt, doc, rng):
                            ("disc_count", {"$float": "0.5"}), ("bootable", "no"), ("bootable", []), ("size", 2 ** 63), ("volume_id", " "), ("subvariant", ""), ("arch", " ")]:
                 out.append(([{"path": ["payload", "images", v, a, i, f], "value": val}], "coerced-valid:%s" % f))
             out.append(([{"path": ["payload", "images", v, a], "value": []}], "empty-cell"))
+            out.append(([{"path": ["header", "version"], "value": "1.0"}, {"path": ["payload", "images", v, a, i, "subvariant"], "delete": True}],
+                        "legal:subvariant-optional-at-1.0"))
     if fmt == "composeinfo":
         out.append(([{"path": ["payload", "release", "type"], "value": doc["payload"]["release"].get("type", "ga").upper()}], "coerced-valid:release.type-upper"))
         out.append(([{"path": ["payload", "release", "internal"], "value": "x"}], "coerced-valid:internal"))
@@ -259,6 +261,55 @@ def accept_mods(fmt, doc, rng):
         out.append(([{"path": [3], "value": " 1 , 2 "}], "coerced-valid:disc_numbers"))
         out.append(([{"path": [1], "value": "\"quoted\""}], "legal:description"))
         out.append(([{"path": [3], "truncate": True}], "legal:three-lines"))
+    return out
+
+
+def conditional_required_mods(fmt, doc):
+    """sections/keys that are required only UNDER A CONDITION the document itself states (`if <condition>: <read section>` in the readers):
+    delete the section while the condition holds, or make the condition hold in a document that lacks the section. [(mods, tag)], all 'reject'"""
+    out = []
+    D = lambda *p: {"path": list(p), "delete": True}
+    S = lambda v, *p: {"path": list(p), "value": v}
+    if fmt == "composeinfo":
+        pl = doc["payload"]
+        if "base_product" in pl:                                  # `if self.release.is_layered: self.base_product.deserialize(...)`
+            out.append(([D("payload", "base_product")], "conditional:base_product-of-layered-release-deleted"))
+            out.append(([S({}, "payload", "base_product")], "conditional:base_product-emptied"))
+            for k in ("name", "version", "short"):
+                out.append(([D("payload", "base_product", k)], "conditional:base_product.%s-deleted" % k))
+        else:
+            for v in (True, 1, "yes"):
+                out.append(([S(v, "payload", "release", "is_layered")], "conditional:is_layered-without-base_product"))
+        for uid, var in pl["variants"].items():                   # `if self.type == "layered-product": self.release.deserialize(data)`
+            if var.get("type") == "layered-product" and "release" in var:
+                out.append(([D("payload", "variants", uid, "release")], "conditional:release-of-layered-product-variant-deleted"))
+                for k in ("name", "version", "short"):
+                    out.append(([D("payload", "variants", uid, "release", k)], "conditional:variant-release.%s-deleted" % k))
+            elif "release" not in var:
+                out.append(([S("layered-product", "payload", "variants", uid, "type")], "conditional:layered-product-without-release"))
+    if fmt == "images":                                           # `subvariant` is required from format 1.1 on (generated gate <= (1, 0))
+        cells = [(v, a, i) for v, arches in doc["payload"]["images"].items() for a, imgs in arches.items() for i in range(len(imgs))]
+        for v, a, i in cells[:2]:
+            out.append(([S("1.1", "header", "version"), D("payload", "images", v, a, i, "subvariant")], "conditional:subvariant-required-from-1.1"))
+            out.append(([D("payload", "images", v, a, i, "subvariant")], "conditional:subvariant-required-from-1.1"))
+    if fmt in JSON_FORMATS:                                       # header type: required from 1.1 on
+        out.append(([S("1.1", "header", "version"), D("header", "type")], "conditional:type-required-from-1.1"))
+    if fmt == "treeinfo":
+        if "base_product" in doc:                                 # `if self.release.is_layered:`
+            out.append(([D("base_product")], "conditional:base_product-of-layered-release-deleted"))
+            for k in ("name", "version", "short"):
+                out.append(([D("base_product", k)], "conditional:base_product.%s-deleted" % k))
+        elif "release" in doc:
+            for v in ("true", "1", "yes", "ON"):
+                out.append(([S(v, "release", "is_layered")], "conditional:is_layered-without-base_product"))
+        for s in doc:                                             # a variant listed in [tree] variants / in a parent's addons needs its section
+            if s.startswith("variant-") or s.startswith("addon-"):
+                out.append(([D(s)], "conditional:listed-variant-section-deleted"))
+        if "media" in doc:                                        # `if parser.has_section("media"):` both numbers
+            out.append(([D("media", "discnum")], "conditional:media.discnum-deleted"))
+            out.append(([D("media", "totaldiscs")], "conditional:media.totaldiscs-deleted"))
+        if "header" in doc:
+            out.append(([S("1.1", "header", "version"), D("header", "type")], "conditional:type-required-from-1.1"))
     return out
 
 
@@ -469,10 +520,18 @@ class C07(Prop):
                     expect = "any"          # configparser strips outer blanks: C04's reader, not a header matter
                 n += 1; yield mk(mods, "gate:%s:%s" % (ver, ty), expect); continue
             if kind == "required":
+                # strata taken in turn, and round-robin INSIDE each stratum (a uniform draw over all deletions is dominated by the many per-variant /
+                # per-image keys and practically never reaches the few sections, let alone the conditionally required ones: seed C07-v2a)
+                self._rq = getattr(self, "_rq", 0) + 1
                 mods = required_mods(fmt, doc)
-                m = rng.choice(mods)
-                if m["path"] == ["header", "type"] and fmt in JSON_FORMATS + ("treeinfo",):
-                    pass
+                cond = conditional_required_mods(fmt, doc)
+                sections = [m for m in mods if len(m["path"]) <= 2 and "truncate" not in m]
+                stratum = self._rq % 3
+                if stratum == 0 and cond:
+                    ms, tag = cond[(self._rq // 3) % len(cond)]
+                    n += 1; yield mk(ms, tag, "reject"); continue
+                pool = sections if (stratum == 1 and sections) else mods
+                m = pool[(self._rq // 3) % len(pool)] if pool is sections else rng.choice(pool)
                 n += 1; yield mk([m], "required:" + "/".join(str(x) for x in m["path"][-2:]), "reject"); continue
             if kind == "special":
                 sp = special_mods(fmt, doc, rng, T) if fmt in JSON_FORMATS else []
